@@ -6,7 +6,7 @@ from __future__ import annotations
 import ast
 import re
 
-from ..astutil import attr_chain, call_attr, calls_in, guard_facts, range_bounds, text_facts, unparse, walk_local
+from ..astutil import alpha_same, attr_chain, call_attr, calls_in, guard_facts, range_bounds, text_facts, unparse, walk_local
 from ..cfg import CFG
 from ..dataflow import Deriv, reaching_defs, resolved_text
 from ..report import Finding, Report
@@ -460,7 +460,7 @@ def check_use_pairing(idx: Index, rep: Report) -> None:
         "for successor, use in zip(self._successors, self._successor_uses):\n    successor.remove_use(use)",
         "self._successor_uses = ()",
     ]
-    miss = [t.split("\n")[0] for t in need if t not in texts]
+    miss = [t.split("\n")[0] for t in need if not any(alpha_same(s_, t) for s_ in f.node.body)]
     if miss:
         r.fail(f.fq, Finding("C01.R3", f.fq, "drop-refs", f"drop_all_references no longer contains {miss}: erased operations would stay in use lists (or uses would be removed twice)", f.loc))
     else:
@@ -613,12 +613,16 @@ def check_arg_shift(idx: Index, rep: Report) -> None:
         a = [resolved_text(cfg, x, at) for x in cs[0].args]
         if len(a) < 3 or a[1] != owner or a[2] != f"{val}.index":
             bad.append((f"ctor-{ctor}", f"replacement {ctor} is built with ({', '.join(a)}); it must keep owner {owner} and index {val}.index"))
+    # the local(s) holding the replacement value: targets of the OpResult / BlockArgument constructions
+    new_names = {n.targets[0].id for n in walk_local(f.node) if isinstance(n, ast.Assign) and len(n.targets) == 1 and isinstance(n.targets[0], ast.Name) and isinstance(n.value, ast.Call) and call_attr(n.value) in ("OpResult", "BlockArgument")}
+    if not new_names:
+        raise AnalysisError(f"{f.fq}: the replacement value is not bound to a local")
     rebuilds = [n for n in walk_local(f.node) if isinstance(n, ast.Assign) and "*" in unparse(n.value)]
     for n in rebuilds:
         t = resolved_text(cfg, n.value, cfg.node_of(n))
-        if not re.search(rf"\[:{val}\.index\], .*, \*.*\[{val}\.index \+ 1:\]", t) or "new_value" not in unparse(n.value):
+        if not re.search(rf"\[:{val}\.index\], .*, \*.*\[{val}\.index \+ 1:\]", t) or not any(isinstance(x, ast.Name) and x.id in new_names for x in ast.walk(n.value)):
             bad.append(("rebuild", f"`{unparse(n)[:80]}` does not replace exactly position {val}.index"))
-    if not any(unparse(s) == f"{val}.replace_all_uses_with(new_value)" for s in f.node.body if isinstance(s, ast.Expr)):
+    if not any(isinstance(s, ast.Expr) and isinstance(s.value, ast.Call) and unparse(s.value.func) == f"{val}.replace_all_uses_with" and len(s.value.args) == 1 and unparse(s.value.args[0]) in new_names for s in f.node.body):
         bad.append(("reroute", "uses of the old value are not re-routed to the new value"))
     (r.ok(f.fq, f"{f.loc} same owner/index, position replaced, uses re-routed") if not bad else [r.fail(f.fq, Finding("C01.R4", f.fq, k, m, f.loc)) for k, m in bad])
 
